@@ -489,6 +489,47 @@ def admDefaults (policy : String) (a : AdmV1) : AdmEff :=
   { name := a.name, includes := a.includes, group := a.group, failurePolicy := a.failurePolicy.getD policy,
     sideEffects := a.sideEffects.getD "None", timeout := a.timeout.getD 10, passthru := a.passthru }
 
+/-! ### the "rejected" clause of the property as a predicate of the typed document
+
+The statement lists, among what must be rejected, *bad crontabs, unknown or ambiguous includeSnapshotsFrom
+names, invalid selectors*. With the parsers as oracle bits of the typed document these are decidable on the
+declared document, independently of the conversion. (Unknown fields and unsupported versions are schema-level
+and are judged by the fault stream; settings / onStartup / webhook validation are not listed by the statement
+and stay out.) -/
+
+def badCrontab (d : DocV1) : Bool := d.scheds.any (fun s => !s.parseOK || zeroStep s.crontab)
+
+/-- a kubernetes binding with an invalid label / field selector, or `metadata.name` in both selectors -/
+def badKubeSelector (d : DocV1) : Bool :=
+  d.kubes.any (fun k => !k.labelSelOK || !k.fieldSelOK || (k.nameSelNonEmpty && k.fieldSelOnName))
+
+/-- an admission binding (validating or mutating) with an invalid object labelSelector -/
+def badAdmObjectSelector (d : DocV1) : Bool :=
+  d.validating.any (fun a => !a.labelSelOK) || d.mutating.any (fun a => !a.labelSelOK)
+
+/-- an admission binding (validating or mutating) with an invalid namespace.labelSelector -/
+def badAdmNamespaceSelector (d : DocV1) : Bool :=
+  d.validating.any (fun a => !a.nsSelOK) || d.mutating.any (fun a => !a.nsSelOK)
+
+/-- a declared include — in a binding of any kind — that names no kubernetes binding or more than one -/
+def badInclude (d : DocV1) : Bool :=
+  let ks := d.kubes.map kubeDefaults
+  d.kubes.any (fun b => !includesOK ks b.includes) || d.scheds.any (fun b => !includesOK ks b.includes) ||
+  d.validating.any (fun b => !includesOK ks b.includes) || d.mutating.any (fun b => !includesOK ks b.includes) ||
+  d.conversions.any (fun b => !includesOK ks b.includes)
+
+def mustReject (d : DocV1) : Bool :=
+  badCrontab d || badKubeSelector d || badAdmObjectSelector d || badAdmNamespaceSelector d || badInclude d
+
+/-- the first listed reason a document must be rejected for (for the driver's answer) -/
+def rejectReason (d : DocV1) : Option String :=
+  if badCrontab d then some "bad-crontab"
+  else if badKubeSelector d then some "invalid-kubernetes-selector"
+  else if badAdmObjectSelector d then some "invalid-admission-labelSelector"
+  else if badAdmNamespaceSelector d then some "invalid-admission-namespace-labelSelector"
+  else if badInclude d then some "unknown-or-ambiguous-includeSnapshotsFrom"
+  else none
+
 end Spec
 
 end ShellOp.Config
